@@ -255,6 +255,11 @@ def render(ir):
     emit("}", 2)
     emit("}", 1)
     emit('print(("ev", "shared", shared));', 1)
+    # epilogue: the final state of every fiber and of every exported counter
+    emit("for fi in 0..%d {" % nf, 1)
+    emit('var cnt = nil; if exports[fi] != nil { cnt = exports[fi](); }', 2)
+    emit('print(("ev", "final", fi, fibers[fi].has_finished(), cnt));', 2)
+    emit("}", 1)
     emit("return 77;", 1)
     emit("}")
     if wrap:
@@ -576,6 +581,12 @@ def model(ir, tape, faults, chooser=None):
                     probes.inc("illegal:yield_at_top_level")
                     ev.append([s("topyield"), cls("RuntimeError")])
         ev.append([s("shared"), num(shared[0])])
+        for fi in range(nf):
+            cnt = None
+            if exports[fi] is not None:
+                exports[fi][0] += 1
+                cnt = exports[fi][0]
+            ev.append([s("final"), num(fi), b(state[fi] == "fin"), enc(cnt)])
         ev.append([s("done"), num(77)])
     except Fatal as f:
         outcome = {"uncaught": f.needle}
@@ -679,7 +690,7 @@ class C09:
         return ["checked", "release", "checked+hooks"]
 
     def plan(self, tier):
-        return 5000 if tier == "quick" else 250000
+        return 15000 if tier == "quick" else 400000
 
     def wall_cap(self, tier):
         return 240 if tier == "quick" else 3300
